@@ -17,10 +17,11 @@ func init() {
 			"races are only reported for accesses the runs actually made concurrent; each pair is repeated with varying goroutine counts and GOMAXPROCS",
 			"instances that are derived from one another (a set and the result of And on it share a collator) are not 'different instances'",
 		},
-		Repro: map[string]func() (bool, string){"race:c19.string": conc.ReproStringRace, "race:c19.sorter": conc.ReproSorterRace},
+		Repro: map[string]func() (bool, string){"race:c19.string": conc.ReproStringRace, "race:c19.sorter": conc.ReproSorterRace, "race:c19.shared-collator": conc.ReproSharedCollator},
 		Engines: []*core.Engine{
 			{Name: "race/family-pairs", Count: core.FixedCount(np*3, np*40), Run: conc.RunC19Pair, Race: true, MaxWorkers: 4, CPULimit: 900},
 			{Name: "race/cold-start-pairs", Count: core.FixedCount(np, np*6), Run: conc.RunC19Cold, Race: true, MaxWorkers: 8, CPULimit: 600},
+			{Name: "race/derived-instances", Count: core.FixedCount(24, 240), Run: conc.RunC19Derived, Race: true, MaxWorkers: 4, CPULimit: 600},
 			{Name: "race/class-accessors", Count: core.FixedCount(8, 64), Run: conc.RunC19Classes, Race: true, MaxWorkers: 4, CPULimit: 600},
 		},
 	})
